@@ -173,7 +173,12 @@ impl Parser {
 
         let (else_statement, do_all_else_branches_return) =
             if let Some(else_statement) = else_statement {
-                let else_scope: ScopeHandle = input.user_data().push_else_typed(child_returns_type);
+                // the else branch has to return on its own: it must not inherit "did return" from the if branch
+                let else_yields = match child_returns_type {
+                    ScopeReturnStatus::Did(ty) => ScopeReturnStatus::ParentShould(ty),
+                    other => other,
+                };
+                let else_scope: ScopeHandle = input.user_data().push_else_typed(else_yields);
                 let else_statement = Self::else_statement(else_statement);
 
                 let child_returns_type = else_scope.consume();
